@@ -3,9 +3,14 @@
 (1) TLC model-checks spec/BitmapRb.tla (transcription of blkmap64_rb.c refining a set: Structural, Refines,
     ResultsAgree) exhaustively on a small range.
 (2) Operation histories are stepped through the real library on all three back ends by harness/bmdrv.c; every
-    logged line (results on each back end, rbtree extents + cursors via hook H2, full bit vectors) is validated by
-    TLC against Trace_BitmapRb (the spec's action for that operation must produce exactly the logged state and
-    results; all invariants are evaluated after every line)."""
+    logged line (results on each back end, rbtree extents + cursors via hook H2, full bit vectors as runs) is
+    validated by TLC against Trace_BitmapRb (the spec's action for that operation must produce exactly the logged
+    state and results; all invariants are evaluated after every line).
+(3) Interval abstraction (DESIGN 2.3): the same specification runs on CELLS between cut points; the cut points of a
+    behaviour are drawn from a boundary catalogue derived from the constants of the real code (byte, 64-bit word,
+    the 256-byte chunk of ext2fs_mem_is_zero, 2^16, a bitmap of 2^17 bits, absolute positions around 2^31 / 2^32)
+    and every range operation is issued between cut points, so the byte / word / chunk loops of the bit-array and
+    legacy back ends are crossed while TLC still validates every line on a few dozen cells."""
 import os, sys, json, random, shutil, subprocess, time
 from common import VERIF, fast_tmp, seed, die_broken, NPROC
 import build, tlc as T, tracecheck
@@ -104,6 +109,146 @@ def gen_behaviour(rng, cfg, nops):
     return lines
 
 
+# ---------------------------------------------------------------- interval abstraction: boundary catalogue
+BYTE = 8                  # ba_* / legacy range operations split a range into head bits, whole bytes, tail bits
+WORD = 64                 # ba_find_first_zero / ba_find_first_set scan 8-byte words once aligned
+CHUNK = 256 * 8           # ext2fs_mem_is_zero compares 256 bytes at a time
+B16, B17 = 1 << 16, 1 << 17
+
+def catalogue(span, extra=()):
+    """cut-point candidates (bit positions relative to the bitmap start) up to span: every boundary b of the real
+    constants with b-1, b, b+1; extra = configuration specific boundaries (absolute 2^31 / 2^32 seen from start)"""
+    bases = [BYTE, WORD, CHUNK, CHUNK + BYTE, CHUNK + WORD, 2 * CHUNK, 2 * CHUNK + BYTE, 3 * CHUNK, 4 * CHUNK, 8 * CHUNK, 16 * CHUNK,
+             B16 - CHUNK, B16, B16 + CHUNK, B17 - CHUNK, B17 - WORD, B17 - BYTE, B17]
+    bases += list(extra) + [span - BYTE, span]
+    pts = {0, 1}
+    for b in bases:
+        pts |= {b - 1, b, b + 1}
+    return sorted(p for p in pts if 0 <= p <= span)
+
+# (start, cluster_bits, span = largest relative position + 1 the behaviour may grow to, extra boundaries, bulk get/set allowed)
+# start is 0 or 1 in every in-tree caller; the two large starts put the absolute positions 2^31 (legacy, signed 32 bit)
+# and 2^32 (64-bit back ends only: real_end does not fit the legacy type) inside the bitmap.
+CUT_GEOMS = [
+    (0, 0, 2 * CHUNK + 104, (), True),
+    (1, 0, 3 * CHUNK + 160, (), True),
+    (0, 0, 8 * CHUNK + 72, (), True),
+    (1, 0, B16 + 72, (), True),
+    (0, 0, B17, (), True),
+    (1, 0, B17 + 64, (), True),
+    (0, 2, 2 * CHUNK + 104, (), True),
+    ((1 << 32) - 3001, 0, 3 * CHUNK + 160, (3001,), False),
+    ((1 << 31) - 2501, 0, 3 * CHUNK + 160, (2501,), False),
+]
+
+
+def gen_cut_behaviour(rng, geom, nops, cover=None):
+    start, cb, span, extra, bulk = geom
+    ratio = 1 << cb
+    cat = catalogue(span, extra)
+    anchors = set(rng.sample(cat, min(len(cat), rng.randint(8, 14))))
+    for p in list(anchors):                      # companions: cells of one bit next to a boundary
+        if rng.random() < 0.5 and p + 1 <= span: anchors.add(p + 1)
+        if rng.random() < 0.25 and p - 1 >= 0: anchors.add(p - 1)
+    for _ in range(2):                           # seeded fillers that are on no boundary
+        p = rng.randint(0, span - 1); anchors |= {p, p + 1}
+    cuts = sorted(anchors | {0, span})
+    K = len(cuts) - 1                            # cells 0..K-1
+    E = rng.randint(max(1, K // 2), K)           # current end = cuts[E] - 1
+    R = rng.choice([E, E, min(K, E + 1), rng.randint(E, K)])
+    logoff = start if start >= 8 else 0
+    lines = ["reset %d %d %d %d %d %s" % (start, start + cuts[E] - 1, start + cuts[R] - 1, cb, logoff, " ".join(map(str, cuts)))]
+    hot = None
+
+    def blk0(i):      # first block of the first unit of cell i
+        return (start + cuts[i]) * ratio
+    def note(op, i, j):
+        if cover is not None:
+            cover.add((op, cuts[i], cuts[j]))
+    for _ in range(nops):
+        def pos():
+            nonlocal hot
+            if hot is None or hot >= E or rng.random() < 0.25:
+                hot = rng.randrange(E)
+            return min(max(hot + rng.randint(-3, 3), 0), E - 1)
+        def span_cells():
+            i = pos()
+            j = min(E, i + 1 + rng.randint(0, 4)) if rng.random() < 0.5 else rng.randint(i + 1, E)
+            return i, j
+        k = rng.random()
+        if k < 0.28:
+            ones = [i for i in range(E) if cuts[i + 1] - cuts[i] == 1]
+            if not ones:
+                continue
+            c = pos()
+            i = min(ones, key=lambda x: (abs(x - c), x)) if rng.random() < 0.7 else rng.choice(ones)
+            lines.append("%s %d" % (rng.choice(["mark", "mark", "unmark"]), blk0(i) + rng.randint(0, ratio - 1)))
+        elif k < 0.40:
+            i = pos()
+            u = rng.choice([cuts[i], cuts[i + 1] - 1, rng.randint(cuts[i], cuts[i + 1] - 1)])
+            lines.append("test %d" % ((start + u) * ratio + rng.randint(0, ratio - 1)))
+        elif k < 0.66:
+            i, j = span_cells()
+            a = blk0(i) + rng.randint(0, ratio - 1)
+            last = blk0(j) - 1 - rng.randint(0, ratio - 1)
+            op = rng.choice(["mark_range", "unmark_range", "test_range", "test_range"])
+            if last < a:
+                a, last = blk0(i), blk0(j) - 1
+            n = last - a + 1
+            if op == "test_range" and n < 2:
+                if j < E:
+                    j += 1; last = blk0(j) - 1; n = last - a + 1
+                else:
+                    continue
+            lines.append("%s %d %d" % (op, a, n)); note(op, i, j)
+        elif k < 0.76:
+            i, j = span_cells()
+            op = rng.choice(["ffz", "ffs"])
+            a = blk0(i) + rng.randint(0, ratio - 1); last = blk0(j) - 1 - rng.randint(0, ratio - 1)
+            if last < a:
+                a, last = blk0(i), blk0(j) - 1
+            lines.append("%s %d %d" % (op, a, last)); note(op, i, j)
+        elif k < 0.84:
+            if not bulk:
+                continue
+            # bulk get/set: start aligned to 8 relative to the bitmap start (precondition of the bit-array back ends)
+            al = [i for i in range(E) if cuts[i] % 8 == 0]
+            i = rng.choice(al)
+            if rng.random() < 0.5:
+                j = rng.randint(i + 1, E)
+                lines.append("get_range %d %d" % (start + cuts[i], cuts[j] - cuts[i])); note("get_range", i, j)
+            else:
+                # whole bytes unless the range ends at `end`, and then only with real_end room for the last byte
+                js = [j for j in range(i + 1, E + 1) if cuts[j] % 8 == 0 or (j == E and (cuts[j] + 7) // 8 * 8 <= cuts[R])]
+                if not js:
+                    continue
+                j = rng.choice(js)
+                style = rng.random()
+                if style < 0.4:
+                    on = [rng.random() < 0.5 for _ in range(i, j)]
+                elif style < 0.7:
+                    t = rng.randint(0, j - i); on = [x < t for x in range(j - i)]
+                else:
+                    t = rng.randint(0, j - i); on = [x >= t for x in range(j - i)]
+                runs = []
+                for x, o in enumerate(on):
+                    if o:
+                        runs.append("%d %d" % (cuts[i + x] - cuts[i], cuts[i + x + 1] - cuts[i + x]))
+                lines.append(("set_runs %d %d %s" % (start + cuts[i], cuts[j] - cuts[i], " ".join(runs))).rstrip()); note("set_range", i, j)
+        elif k < 0.88:
+            lines.append(rng.choice(["clear", "copy", "copy", "set_padding"]))
+        elif k < 0.94:
+            ne = rng.randint(1, K)
+            nr = rng.choice([ne, ne, min(K, ne + 1), rng.randint(ne, K)])
+            lines.append("resize %d %d" % (start + cuts[ne] - 1, start + cuts[nr] - 1)); note("resize", ne, nr)
+            E, R = ne, nr
+        else:
+            ones = [i for i in range(E) if cuts[i + 1] - cuts[i] == 1]
+            c = rng.choice([-1, -2] + ([rng.choice(ones)] * 2 if ones else []))
+            lines.append("cmp %d" % (c if c < 0 else start + cuts[c]))
+    return lines
+
+
 def run_driver(drv, behaviours, workdir):
     script = os.path.join(workdir, "ops.txt")
     with open(script, "w") as f:
@@ -167,6 +312,13 @@ def run(tier):
         nbeh = 1200 if tier == "quick" else 40000
         nops = 30 if tier == "quick" else 40
         behaviours = [gen_behaviour(rng, CONFIGS[i % len(CONFIGS)], nops) for i in range(nbeh)]
+        # interval abstraction: histories between cut points of the boundary catalogue (own generator stream, so the
+        # small-range universe of a seed does not depend on this part)
+        rng2 = random.Random(seed() * 1000003 + 16)
+        ncut = 100 * len(CUT_GEOMS) if tier == "quick" else 1500 * len(CUT_GEOMS)
+        cover = set()
+        nsmall = len(behaviours)
+        behaviours += [gen_cut_behaviour(rng2, CUT_GEOMS[i % len(CUT_GEOMS)], nops, cover) for i in range(ncut)]
         trace, err = run_driver(drv, behaviours, work)
         if err:
             # a crash of the library under a legal history is a violation; find the behaviour by bisection
@@ -211,12 +363,24 @@ def run(tier):
         for ops, tl in zip(behaviours, tb):
             if nontrivial(tl[1:]):
                 ev.nontrivial(hash(tuple(ops)))
-        ev.cov["rule"] = ("histories of %d operations drawn (seeded) over 10 bitmap geometries incl. start=1, end<real_end padding and cluster_bits 1,2; "
-                          "non-trivial = performs >=1 extent merge, >=1 extent split and >=1 test issued while rcursor is set; distinct by operation sequence" % nops)
+        ev.cov["rule"] = ("histories of %d operations drawn (seeded): %d over 10 small bitmap geometries (positions = bits) incl. start=1, end<real_end padding and "
+                          "cluster_bits 1,2; %d over %d large geometries (up to 2^17 bits, start 0/1, cluster_bits 2, absolute positions across 2^31 and 2^32) in the "
+                          "interval abstraction: 12-40 cut points per behaviour drawn from the boundary catalogue (byte, 64-bit word, 256-byte chunk of "
+                          "ext2fs_mem_is_zero and its multiples, 2^16, 2^17, each -1/0/+1) and every range operation issued between cut points; "
+                          "non-trivial = performs >=1 extent merge, >=1 extent split and >=1 test issued while rcursor is set; distinct by operation sequence"
+                          % (nops, nsmall, ncut, len(CUT_GEOMS)))
+        ev.cov["cut_mode"] = {"behaviours": ncut, "catalogue_points": len(catalogue(B17 + 64)),
+                              "distinct_range_operations_by_real_bounds": len(cover),
+                              "by_operation": {o: len([1 for c in cover if c[0] == o]) for o in sorted({c[0] for c in cover})},
+                              "ranges_longer_than_one_mem_is_zero_chunk": len([1 for c in cover if c[2] - c[1] > CHUNK + 2 * BYTE])}
         ev.sample({"ops": behaviours[0][:12], "first_trace_lines": [json.loads(x) for x in tb[0][:3]]})
         ev.sample({"ops": behaviours[7][:12]})
+        ev.sample({"interval_abstraction_ops": behaviours[nsmall][:12], "first_trace_lines": [json.loads(x) for x in tb[nsmall][:3]]})
         ev.cov["checker_cmd"] = "TRACE=<chunk> tlc -workers 1 -config spec/Trace_BitmapRb.cfg spec/Trace_BitmapRb.tla (POSTCONDITION TraceAccepted, INVARIANT Structural, Refines, ResultsAgree)"
         ev.assumptions = ["bulk get/set are issued with (start - bitmap start) % 8 == 0 and whole bytes except at the end of the bitmap (what rw_bitmaps.c does)",
+                          "bulk get/set are issued only on bitmaps whose first position is 0 or 1 (every in-tree bitmap; ba_get/set_bmap_range index the byte array with the absolute position)",
+                          "interval abstraction: single-bit mark/unmark/compare-flip act on cells of width one; a range test of exactly one bit (routed through test_bmap by the generic layer) is not issued",
+                          "the legacy 32-bit back end takes part whenever cluster_bits = 0 and every position of the behaviour fits in 32 bits",
                           "arguments stay inside start..end; out-of-range arguments are refused by the generic layer and not part of the universe",
                           "the extent list printed by hook H2 is the in-order walk of the rb tree; rb tree balancing itself (rbtree.c) is not modelled, only its in-order content"]
         return vd.finish()
